@@ -299,8 +299,67 @@ def search_len_conditions():
     return None
 
 
+def search_match_guards():
+    """match statements whose cases carry opaque guards: a value that falls through a case because its guard failed still
+    belongs to the type the subject is narrowed to in the later cases"""
+    import re
+    from replay.checkcode import check_code
+    subjects = [("Optional[int]", [None, 1, 2]), ("Literal[1, 2]", [1, 2]), ("Union[int, str]", [1, "a", "b"])]
+    patterns = ["None", "1", "'a'", "int()", "str()"]
+    progs = []
+    for ann, xs in subjects:
+        for p1 in patterns:
+            for p2 in patterns:
+                if p1 != p2:
+                    progs.append((ann, xs, p1, p2))
+    lines = ["from typing import Optional, Union\nfrom typing_extensions import Literal\ndef g() -> bool:\n    return False"]
+    where = []
+    for i, (ann, xs, p1, p2) in enumerate(progs):
+        lines.append(f"def f{i}(x: {ann}) -> int:\n    match x:\n        case {p1} if g():\n            reveal_type(x)\n            return 1\n        case {p2}:\n            reveal_type(x)\n            return 2\n"
+                     f"        case _:\n            reveal_type(x)\n            return 3\n    return 0")
+    src = "\n".join(lines) + "\n"
+    res = check_code(src)
+    rev = {}
+    for fl in res:
+        if fl["code"].name == "reveal_type":
+            m = re.search(r"Revealed type is '(.*)'", fl["description"], re.S)
+            rev[fl["lineno"]] = m.group(1) if m else fl["description"]
+    src_lines = src.split("\n")
+    starts = [i + 1 for i, l in enumerate(src_lines) if l.startswith("def f") and "(x:" in l]
+
+    def member(x, txt):
+        if txt is None or txt == "Never":
+            return False
+        for part in [p.strip() for p in txt.split(" | ")]:
+            if part in ("int", "str") and type(x).__name__ == part or part == "None" and x is None or part.startswith("Any") or part == "object":
+                return True
+            m = re.fullmatch(r"Literal\[(.*)\]", part)
+            if m:
+                try:
+                    if any(type(l) is type(x) and l == x for l in eval("[" + m.group(1) + "]")):
+                        return True
+                except Exception:
+                    return True
+        return False
+    for (ann, xs, p1, p2), start in zip(progs, starts):
+        for gv in (False, True):
+            env = {}
+            exec("from typing import Optional, Union\nfrom typing_extensions import Literal\n" + "\n".join(src_lines[start - 1:start + 11]).replace("reveal_type(x)", "pass"), env)
+            env["g"] = lambda: gv
+            fname = src_lines[start - 1].split("(")[0][4:]
+            for x in xs:
+                which = env[fname](x)
+                if which == 0:
+                    continue
+                ln = start + {1: 3, 2: 6, 3: 9}[which]
+                if not member(x, rev.get(ln)):
+                    return (f"def f(x: {ann}): match x: case {p1} if g(): ... case {p2}: ... case _: ... -- with x = {x!r} and g() = {gv} case #{which} runs, "
+                            f"but x is narrowed there to {rev.get(ln)!r}")
+    return None
+
+
 def r_conditions(rec):
-    msg = search_conditions() or search_len_conditions()
+    msg = search_conditions() or search_len_conditions() or search_match_guards()
     return (True, msg) if msg else (False, "narrowing keeps the actual value on every enumerated condition")
 
 
